@@ -198,8 +198,15 @@ def run_property(pid, tier, seed):
     return code
 
 
+def evidence_dir():
+    # runs against a scratch copy (VERIF_REPO=...) must not overwrite the evidence of /repo itself
+    if os.path.realpath(REPO) != '/repo':
+        return os.path.join(VERIF, '.work', 'evidence_scratch')
+    return os.path.join(VERIF, 'evidence')
+
+
 def write_evidence(pid, tier, seed, units, results, known, violations, undecided, wall, extra):
-    os.makedirs(os.path.join(VERIF, 'evidence'), exist_ok=True)
+    os.makedirs(evidence_dir(), exist_ok=True)
     obligations = 0
     discharged = 0
     trusted = []
@@ -263,7 +270,7 @@ def write_evidence(pid, tier, seed, units, results, known, violations, undecided
         'wall_s': round(wall, 2),
         'violations': len(violations),
     }
-    json.dump(ev, open(os.path.join(VERIF, 'evidence', pid + '.json'), 'w'), indent=1)
+    json.dump(ev, open(os.path.join(evidence_dir(), pid + '.json'), 'w'), indent=1)
 
 
 def rebaseline(pid=None):
